@@ -268,7 +268,12 @@ def run(prog, rep):
         bodies, todo = [f], [f]
         while todo and len(bodies) < 6:
             g0 = todo.pop()
+            top = []
             for st in (g0.body or {}).get('c', []):
+                top.append(st)
+                if st['k'] == 'CXXTryStmt' and child(st, 'block') is not None:
+                    top.extend(child(st, 'block').get('c', []))          # `try { SkipUnreadItems(); } catch (...) {}`
+            for st in top:
                 e = strip(st)
                 if e is not None and e['k'] == 'CXXMemberCallExpr':
                     cal = g0.callee(e)
@@ -433,6 +438,27 @@ def check_object_scope(prog, rep, rule='R3.5'):
     if len(methods) < 10:
         raise AnalysisBroken('anchor: methods of CMsgPackReadObjectScope not found (%d)' % len(methods))
     memo = {}
+    # key readers: the methods that obtain the key storage of the scope (CVariableKey::GetValueRef / Set) and read a key into it - ReadKey and
+    # whatever helpers it is split into. A call of one consumes one item and leaves a key pending; they are not balanced themselves.
+    key_readers = set()
+    for m in methods:
+        if m.body is not None and any(x['k'] == 'CXXMemberCallExpr' and (m.callee(x) or {}).get('n') in ('GetValueRef', 'Set')
+                                      and 'CVariableKey' in (m.callee(x) or {}).get('clsq', (m.callee(x) or {}).get('q', '')) for x in m.walk()):
+            key_readers.add(m.id)
+    changed = True
+    while changed:
+        changed = False
+        for m in methods:
+            if m.id in key_readers or m.body is None or m.name in ('FindValueByKey', 'VisitKeys'):
+                continue
+            stm = [st for st in (m.body.get('c') or [])]
+            calls = [x for x in m.walk() if x['k'] == 'CXXMemberCallExpr' and (m.callee(x) or {}).get('id') in key_readers]
+            other = [x for x in m.walk() if x['k'] == 'CXXMemberCallExpr' and (m.callee(x) or {}).get('n') in VALUE_CONSUMERS]
+            if calls and not other and all((m.callee(x) or {}).get('cls') == m.cls for x in calls) and m.name.startswith('ReadKey'):
+                key_readers.add(m.id)
+                changed = True
+    if not key_readers:
+        raise AnalysisBroken(rule + ': no method of the object scope reads a key into the scope\'s key storage')
 
     def is_key_test(f, cond):
         """condition that tests whether a key is pending: `mCurrentKey` converted to bool (not a comparison with a key)"""
@@ -440,9 +466,14 @@ def check_object_scope(prog, rep, rule='R3.5'):
             return None
         c = strip(cond)
         neg = False
-        while c is not None and c['k'] == 'UnaryOperator' and c.get('op') == '!':
-            neg = not neg
-            c = strip(c['c'][0])
+        for _ in range(4):
+            while c is not None and c['k'] == 'UnaryOperator' and c.get('op') == '!':
+                neg = not neg
+                c = strip(c['c'][0])
+            r = resolve(f, c) if c is not None else None        # `const bool hasPendingKey = static_cast<bool>(mCurrentKey);`
+            if r is None or r is c:
+                break
+            c = r
         if c is not None and c['k'] == 'CXXMemberCallExpr' and (f.callee(c) or {}).get('n') == 'operator bool':
             me = strip(c['c'][0], casts=False)
             base = strip(me['c'][0]) if me is not None and me.get('c') else None
@@ -480,8 +511,8 @@ def check_object_scope(prog, rep, rule='R3.5'):
                             if nm == 'SetPosition' and (cq.endswith('IMsgPackReader') or cq.endswith('Reader')):
                                 new_states.append((T, I, R - 1, pre, cur, tr + ['SetPosition@%d' % n['l']], lr))
                                 continue
-                            if nm == 'ReadKey':
-                                new_states.append((T + 1, I, R, pre, 1, tr + ['ReadKey@%d' % n['l']], lr))
+                            if nm == 'ReadKey' or (s is not None and s.get('id') in key_readers):
+                                new_states.append((T + 1, I, R, pre, 1, tr + ['%s@%d' % (nm, n['l'])], lr))
                                 continue
                             if nm == 'Reset' and 'CVariableKey' in cq:
                                 new_states.append((T, I, R, pre, 0, tr + ['key.Reset@%d' % n['l']], lr))
@@ -557,7 +588,7 @@ def check_object_scope(prog, rep, rule='R3.5'):
         return out
 
     for f in sorted(methods, key=lambda x: x.id):
-        if f.sym['kind'] == 'ctor' or f.name in ('GetPath', 'GetEstimatedSize', 'ReadKey', 'OnFinishChildScope'):
+        if f.sym['kind'] == 'ctor' or f.name in ('GetPath', 'GetEstimatedSize', 'ReadKey', 'OnFinishChildScope') or f.id in key_readers:
             continue   # OnFinishChildScope is the deferred settlement of a child scope (accounted where the child is created)
         rep.touch(f)
         d = summaries(f)
